@@ -25,6 +25,10 @@ func (u *UseCase) DeleteOld(ctx context.Context) error {
 		return fmt.Errorf("tx repo oldest: %w", err)
 	}
 
+	if verifhook.Enabled {
+		_ = verifhook.Point("cleaner.horizon", fmt.Sprintf("%d", tx.Seq)) //nolint:errcheck
+	}
+
 	files := u.core.DeleteOld(ctx, model.MainTxId, tx.Seq)
 	err = u.DeleteFiles(ctx, files)
 	if err != nil {
